@@ -14,7 +14,7 @@ RULE = ("core lattice (every supported dtype x null pattern x boundary row count
         "(kinds, null patterns, row class, dpv, paging, has_nulls, codec class, scheme, index kind, times, stats) tuples")
 ASSUMPTIONS = ["pandas/numpy behave as documented", "cramjam codecs are shared by writer and reader (symmetric codec defect invisible)",
                "float NaN and missing are the same thing at the pandas level (NaN == NULL for float cells)"]
-CASE_TIMEOUT = 180
+CASE_TIMEOUT = 120
 
 from vf.gen import frames as F
 from vf.gen import options as O
@@ -85,7 +85,8 @@ def gen_cases(tier, seed):
 
 INDEX_KINDS = [None, None, None, {"kind": "range", "start": 5, "step": 2}, {"kind": "range", "start": 0, "step": 1, "name": "rix"},
                {"kind": "int"}, {"kind": "int", "name": "myidx"}, {"kind": "str", "name": "sidx"}, {"kind": "dt", "name": "when"},
-               {"kind": "float", "name": "fidx"}, {"kind": "dtz", "name": "whenz"}]
+               {"kind": "float", "name": "fidx"}, {"kind": "dtz", "name": "whenz"},
+               {"kind": "range", "start": 0, "step": -1}, {"kind": "range", "start": 10, "step": -3, "name": "down"}, {"kind": "td", "name": "tdi"}]
 
 
 def random_case(rng, cid, kinds=None, max_cols=6, allow_multi=True):
@@ -102,7 +103,7 @@ def random_case(rng, cid, kinds=None, max_cols=6, allow_multi=True):
         if kind in F.DTZ_KINDS:
             col["tz"] = F.TZS[int(rng.integers(0, len(F.TZS)))]
         if kind in F.CAT_KINDS:
-            col["ncat"] = int([1, 2, 5, 40, 200][int(rng.integers(0, 5))]) if kind != "cat_many" else int([129, 300, 70000][int(rng.integers(0, 3))]) if rng.random() < 0.3 else 300
+            col["ncat"] = int([1, 2, 5, 40, 200, 0][int(rng.integers(0, 6))]) if kind != "cat_many" else int([129, 300, 70000][int(rng.integers(0, 3))]) if rng.random() < 0.3 else 300
             col["unused"] = int(rng.integers(0, 3))
         cols.append(col)
     names = [c["name"] for c in cols]
